@@ -378,6 +378,20 @@ func (u *Unit) typeAssert(st *State, x *ssa.TypeAssert) {
 
 func (u *Unit) sliceOp(st *State, x *ssa.Slice) {
 	xt := x.X.Type()
+	// whole-slice of a package-level byte array: an immutable constant byte string
+	if g, ok := x.X.(*ssa.Global); ok && x.Low == nil && x.High == nil {
+		if at, ok := derefNamed(g.Type()).Underlying().(*types.Array); ok {
+			if b, ok := at.Elem().Underlying().(*types.Basic); ok && b.Kind() == types.Uint8 && !u.eng.mutableGlobals[g] {
+				name := "gbytes$" + mangle(g.Pkg.Pkg.Path()+"."+g.Name())
+				if !u.s.declared["c:"+name] {
+					u.s.declConst(name, SBytes)
+					u.s.assumeGlobal(eq(sx("blen", name), intLit(at.Len())))
+				}
+				st.regs[x] = name
+				return
+			}
+		}
+	}
 	if isBytesType(xt) || isString(xt) {
 		if x.Low == nil && x.High == nil {
 			st.regs[x] = u.val(st, x.X)
